@@ -219,6 +219,8 @@ fn setup(o: &Opts, scratch: &Path, only_complete_reference: bool) -> Result<Ctx,
     dirstate::build_foreign(&foreign, &shipped, false).unwrap_or_else(|e| harness_fail(&format!("foreign index: {e}")));
     let foreign_schema = scratch.join("foreign-schema-index");
     dirstate::build_foreign(&foreign_schema, &shipped, true).unwrap_or_else(|e| harness_fail(&format!("foreign index: {e}")));
+    let foreign_same = scratch.join("foreign-same-shape-index");
+    dirstate::build_foreign_same_shape(&foreign_same, &shipped).unwrap_or_else(|e| harness_fail(&format!("foreign index: {e}")));
 
     // clean reference start (one CPU, canonical plan)
     let gold = Paths::new(scratch.join("gold").join("xdg"));
@@ -267,7 +269,7 @@ fn setup(o: &Opts, scratch: &Path, only_complete_reference: bool) -> Result<Ctx,
     }
     let gold_index = scratch.join("gold-index");
     dirstate::copy_dir(&gold.index(), &gold_index).unwrap_or_else(|e| harness_fail(&e.to_string()));
-    let reference = Reference { meta_text: info.meta_text.clone().unwrap_or_default(), version, hash, gold_index, foreign_index: foreign, foreign_schema_index: foreign_schema };
+    let reference = Reference { meta_text: info.meta_text.clone().unwrap_or_default(), version, hash, gold_index, foreign_index: foreign, foreign_schema_index: foreign_schema, foreign_same_shape_index: foreign_same };
     let mut alt = None;
     if let (Some(bin), Some(repo)) = (&o.alt_bin, &o.alt_repo) {
         if bin.join("simnode").is_file() {
@@ -292,6 +294,7 @@ fn setup(o: &Opts, scratch: &Path, only_complete_reference: bool) -> Result<Ctx,
                     gold_index: agold_index,
                     foreign_index: reference.foreign_index.clone(),
                     foreign_schema_index: reference.foreign_schema_index.clone(),
+                    foreign_same_shape_index: reference.foreign_same_shape_index.clone(),
                 };
                 alt = Some(Box::new(Alt { launcher: alauncher, repo: repo.clone(), shipped: ashipped, reference: areference }));
             } else {
@@ -323,6 +326,7 @@ fn setup(o: &Opts, scratch: &Path, only_complete_reference: bool) -> Result<Ctx,
                     gold_index: agold_index,
                     foreign_index: reference.foreign_index.clone(),
                     foreign_schema_index: reference.foreign_schema_index.clone(),
+                    foreign_same_shape_index: reference.foreign_same_shape_index.clone(),
                 };
                 ver = Some(Box::new(Alt { launcher: alauncher, repo: repo.clone(), shipped: ashipped, reference: areference }));
             } else {
@@ -1620,14 +1624,25 @@ fn cmd_mkdata(o: &Opts) -> i32 {
     std::fs::create_dir_all(dst).unwrap_or_else(|e| harness_fail(&e.to_string()));
     let mut altered = 0;
     let mut other_size = 0;
+    let mut fact_index = 0usize;
     let mut names: Vec<String> = std::fs::read_dir(&src).unwrap_or_else(|e| harness_fail(&e.to_string())).flatten().map(|e| e.file_name().to_string_lossy().to_string()).collect();
     names.sort();
     for n in names {
         let orig = std::fs::read(src.join(&n)).unwrap_or_else(|e| harness_fail(&e.to_string()));
         let mut out = orig.clone();
-        // VERIF_MKDATA_ONLY=first: only the first fact asset changes (a partial update of the data)
-        let only_first = std::env::var("VERIF_MKDATA_ONLY").map(|v| v == "first").unwrap_or(false);
-        if n.ends_with(".bin.gz") && n != "sources.bin.gz" && !(only_first && altered > 0) {
+        // VERIF_MKDATA_ONLY=first|second: only that fact asset changes (a partial update of the data;
+        // with three assets the second one is neither the first nor the last to be indexed)
+        let only: Option<usize> = match std::env::var("VERIF_MKDATA_ONLY").as_deref() {
+            Ok("first") => Some(0),
+            Ok("second") => Some(1),
+            _ => None,
+        };
+        let is_fact = n.ends_with(".bin.gz") && n != "sources.bin.gz";
+        let this_fact = fact_index;
+        if is_fact {
+            fact_index += 1;
+        }
+        if is_fact && only.map(|k| k == this_fact).unwrap_or(true) {
             let mut raw = Vec::new();
             flate2::read::GzDecoder::new(&orig[..]).read_to_end(&mut raw).unwrap_or_else(|e| harness_fail(&e.to_string()));
             // change letters inside description strings, in place, keeping every length
@@ -1687,13 +1702,37 @@ fn cmd_mkdata(o: &Opts) -> i32 {
         }
         std::fs::write(dst.join(&n), &out).unwrap_or_else(|e| harness_fail(&e.to_string()));
     }
+    // a partial update also ships one more asset (a copy of the largest one, under a name that
+    // sorts last): the list of assets differs between the two builds, not only their content
+    let mut extra = 0;
+    if std::env::var("VERIF_MKDATA_ONLY").map(|v| v == "first" || v == "second").unwrap_or(false) {
+        let mut best: Option<(u64, std::path::PathBuf)> = None;
+        for e in std::fs::read_dir(&src).unwrap_or_else(|e| harness_fail(&e.to_string())).flatten() {
+            let n = e.file_name().to_string_lossy().to_string();
+            if n.ends_with(".bin.gz") && n != "sources.bin.gz" {
+                let len = e.metadata().map(|m| m.len()).unwrap_or(0);
+                if best.as_ref().map(|(l, _)| len > *l).unwrap_or(true) {
+                    best = Some((len, e.path()));
+                }
+            }
+        }
+        if let Some((_, path)) = best {
+            std::fs::copy(&path, dst.join("zz-verif-extra.bin.gz")).unwrap_or_else(|e| harness_fail(&e.to_string()));
+            let one = shipped::load(&args[0]).unwrap_or_else(|e| harness_fail(&e));
+            let name = path.file_name().map(|n| n.to_string_lossy().to_string()).unwrap_or_default();
+            extra = one.assets.iter().find(|(n, _)| *n == name).map(|(_, k)| *k).unwrap_or(0);
+        }
+    }
     // the result must still decode, with as many constants, and differ
     let a = shipped::load(&args[0]).unwrap_or_else(|e| harness_fail(&e));
     let parent = dst.parent().map(|p| p.display().to_string()).unwrap_or_default();
     let b = shipped::load(&parent).unwrap_or_else(|e| harness_fail(&format!("altered data does not decode: {e}")));
     let differing = a.constants.iter().zip(b.constants.iter()).filter(|(x, y)| shipped::canon(x) != shipped::canon(y)).count();
     println!("mkdata: {altered} asset(s) altered in place (same names, uncompressed lengths and CRC-32; {} of them also the same compressed size), {} constants, {differing} differ", altered - other_size, b.constants.len());
-    if altered == 0 || differing == 0 || a.constants.len() != b.constants.len() {
+    if extra > 0 {
+        println!("mkdata: one more asset with {extra} constants (zz-verif-extra.bin.gz)");
+    }
+    if altered == 0 || differing == 0 || a.constants.len() + extra != b.constants.len() {
         return 2;
     }
     0
